@@ -833,11 +833,11 @@ DALIAS = {'alpha': 'a1', 'beta': 'Zb', 'sub.alpha': 'SA', 'sub.gamma': 'g_'}
 # the statement `mod.K.meth.m = @mod.K` (a method's parameter bound to a reference to the method's own class), when it is the first to name the
 # method, stores a reference to the registration of K that naming the method has just replaced; the reference compares unequal to its own re-parse,
 # so config_str() omits the binding (`# None.`) and the text depends on the order of first use.  True = generate such statements.
-ENABLE_DYN_REFERENCE_TO_OWN_CLASS_IN_METHOD_BINDING = False
+ENABLE_DYN_REFERENCE_TO_OWN_CLASS_IN_METHOD_BINDING = True
 # GENUINE DEFECT of gin (reproducer: /tmp/impl/C06/defect_2.py), switched off likewise: with three or more plain imports of modules of one package
 # (`import P.alpha`, `import P.sub.alpha`, `import P.sub.gamma`) config_str() adds synthetic imports (`import P`, `import P.sub`) whose numbered
 # aliases (P4, P5) are assigned in the order the bindings were made: the text depends on the binding order.  True = generate three or more.
-ENABLE_DYN_THREE_PLAIN_IMPORTS_OF_ONE_PACKAGE = False
+ENABLE_DYN_THREE_PLAIN_IMPORTS_OF_ONE_PACKAGE = True
 
 
 def dyn_import(pk, mod, form):
@@ -1058,9 +1058,9 @@ def run_dyn2(ctx, case):
   try:
     _, s_imports, _, _ = snap.parse_text(s)
   except Exception:  # pylint: disable=broad-except
-    s_imports = []
+    s_imports = None      # the text does not even tokenise: reported by the round trip below, nothing to say about its headers
   prefixes = {}
-  for module, is_from, alias in s_imports:
+  for module, is_from, alias in s_imports or []:
     prefixes[alias or (module.rsplit('.', 1)[-1] if is_from else module)] = module
   by_path = {pk + '.' + v[0] + '.' + v[1]: k for k, v in list(DOBJ.items()) + list(DSTATIC.items())}
 
@@ -1072,6 +1072,8 @@ def run_dyn2(ctx, case):
     return by_path.get(prefixes[best] + sel[len(best):]) if best else None
 
   def section_name(h):
+    if s_imports is None:
+      return ''
     k = object_of_spelling(h.rpartition('/')[2])
     if k is None:
       return None
